@@ -96,6 +96,28 @@ class Prop(PropBase):
                     t += 2
                 lines += ['R 0', 'E']
                 scn.append('\n'.join(lines))
+        # the crossing placed at every block position of a packet in turn (single and dual return, every type): whichever block
+        # of a packet crosses the split angle opens the cloud
+        for ti, name in enumerate(types):
+            l = self.L[name]
+            for r in range(min(l.nblk, 3) if tier == 'quick' else l.nblk):
+                for dual in (False, True):
+                    s = rng.choice([0, 100, 18000, 35990])
+                    tb = (ti * 2 + r + (1 if dual else 0)) % l.nblk
+                    step = rng.choice([18, 20, 40])
+                    az = (s - step * (l.nblk + tb) + step // 2) % 36000      # block tb of the second packet is the first at / past s
+                    cfg = pktgen.Cfg(angle=s, pktcb=1, wait=1)
+                    lines = [f'S c03_pos_{name}_{r}_{"d" if dual else "s"}_b{tb}', cfg.line(0, l), 'I 0', 'W 10', 'P 0 ' + l.difop(dual=dual, rpm=600).hex()]
+                    t = 12
+                    for k in range(3):
+                        blocks = []
+                        for b in range(l.nblk):
+                            blocks.append((az, [(rng.choice([400, 2000]), (k * 16 + b) % 256)] * l.nchan))
+                            az = (az + step) % 36000
+                        lines += [f'W {t}', 'P 0 ' + l.msop(blocks).hex()]
+                        t += 2
+                    lines += ['R 0', 'E']
+                    scn.append('\n'.join(lines))
         out.append(('drv', '\n'.join(scn) + '\n'))
         return out
 
